@@ -118,7 +118,137 @@ def viol_C12_reverse(case, res):
     return None
 
 
-PREDS = {'C01': viol_C01, 'C06': viol_C06, 'C12': viol_C12_reverse, 'C03': viol_C01, 'C20': viol_C01}
+M256 = 2 ** 256
+
+
+def bn_oracle(op, a, b, c):
+    """Independent big-natural reference: returns ('ok', value) or ('abort', reason)."""
+    def fit(v):
+        return ('ok', v) if 0 <= v < M256 else ('abort', 'result exceeds 256 bits')
+    if op in ('uint_add', 'uint_add_assign', 'dec_add', 'dec_add_assign'):
+        return fit(a + b)
+    if op in ('uint_sub', 'dec_sub'):
+        return ('ok', a - b) if a >= b else ('abort', 'negative difference')
+    if op == 'uint_mul':
+        return fit(a * b)
+    if op in ('uint_mul_dec', 'dec_mul_uint'):
+        if a * b >= M256:
+            return ('abort', 'operand product exceeds 256 bits')
+        return ('ok', a * b // D)
+    if op == 'uint_div_dec':
+        if b == 0:
+            return ('abort', 'zero divisor')
+        if a * D >= M256:
+            return ('abort', 'operand product exceeds 256 bits')
+        return ('ok', a * D // b)
+    if op == 'multiply_ratio':
+        if c == 0:
+            return ('abort', 'zero divisor')
+        if a * b >= M256:
+            return ('abort', 'operand product exceeds 256 bits')
+        return ('ok', a * b // c)
+    if op == 'dec_mul':
+        if a * b >= M256:
+            return ('abort', 'operand product exceeds 256 bits')
+        return ('ok', a * b // D)
+    if op == 'dec_div':
+        if b == 0:
+            return ('abort', 'zero divisor')
+        if a * D >= M256:
+            return ('abort', 'operand product exceeds 256 bits')
+        return ('ok', a * D // b)
+    if op == 'from_ratio':
+        if b == 0:
+            return ('abort', 'zero divisor')
+        if a * D >= M256:
+            return ('abort', 'operand product exceeds 256 bits')
+        return ('ok', a * D // b)
+    if op == 'from_uint256':
+        return fit(a * D)
+    if op == 'percent':
+        return ('ok', a * 10 ** 16)
+    if op == 'permille':
+        return ('ok', a * 10 ** 15)
+    if op in ('cmp_uint', 'pcmp_uint', 'cmp_dec'):
+        return ('ok', (a > b) - (a < b))
+    if op in ('eq_uint', 'eq_dec'):
+        return ('ok', int(a == b))
+    if op in ('lt_uint', 'lt_dec'):
+        return ('ok', int(a < b))
+    if op in ('to_u128', 'to_uint128'):
+        return ('ok', a) if a < 2 ** 128 else ('abort', 'does not fit 128 bits')
+    if op in ('from_u128', 'from_uint128', 'from_u64'):
+        return ('ok', a)
+    if op in ('uint_is_zero', 'dec_is_zero'):
+        return ('ok', int(a == 0))
+    if op in ('dec_one',):
+        return ('ok', D)
+    if op in ('dec_zero', 'uint_zero'):
+        return ('ok', 0)
+    if op == 'uint_one':
+        return ('ok', 1)
+    return None
+
+
+def viol_C08(case, res):
+    if case.get('kind') != 'bn':
+        return None
+    a, b, c = int(case.get('a', 0)), int(case.get('b', 0)), int(case.get('c', 0))
+    want = bn_oracle(case['op'], a, b, c)
+    if want is None:
+        return None
+    if want[0] == 'abort':
+        if res.get('ok'):
+            return '%s returned %s but must abort (%s)' % (case['op'], res['out'].get('r'), want[1])
+        return None
+    if not res.get('ok'):
+        return '%s aborted (%s) although the exact result %d is representable' % (case['op'], res.get('panic'), want[1])
+    if int(res['out']['r']) != want[1]:
+        return '%s returned %s, exact result is %d' % (case['op'], res['out']['r'], want[1])
+    return None
+
+
+def big_nums(rng):
+    base = [0, 1, 2, 3, 10, 999, 10 ** 9, 10 ** 9 + 1, D - 1, D, D + 1, 5 * 10 ** 17 + 5 * 10 ** 8, 3 * D // 2, 5 * D // 2, 2 ** 32, 2 ** 63, 2 ** 64 - 1, 2 ** 64, 2 ** 64 + 1,
+            2 ** 96, 2 ** 127, 2 ** 127 + 7, 2 ** 128 - 1, 2 ** 128, 2 ** 128 + 1, 2 ** 128 + 5, 2 ** 129 + 1, 10 ** 20, 10 ** 30, 10 ** 39, 2 * 10 ** 39, 10 ** 57, 10 ** 58,
+            2 ** 191, 2 ** 192, 2 ** 192 + 2 ** 64 - 1, 2 ** 240 + 1, 2 ** 250 + 7, 2 ** 255, 2 ** 255 + 1, M256 - 1, M256 - 2, M256 // 3, M256 // D, M256 // D + 1,
+            3333333333333333, 1000, 3000, 2 ** 64 * 5 + 3, (2 ** 64 - 1) * 2 ** 64 + 1, 1 + 2 ** 64 * 7 + 2 ** 128 * 3, 7 + 2 ** 64 * 3 + 2 ** 128 * 1]
+    for _ in range(30):
+        base.append(rng.randrange(0, 2 ** rng.choice([16, 64, 65, 100, 128, 129, 192, 200, 255, 256])))
+    return base
+
+
+def gen_bn_cases(rng, budget):
+    ns = big_nums(rng)
+    out = []
+    bin_ops = ['uint_add', 'uint_add_assign', 'uint_sub', 'uint_mul', 'uint_mul_dec', 'dec_mul_uint', 'uint_div_dec', 'dec_add', 'dec_add_assign', 'dec_sub', 'dec_mul', 'dec_div',
+               'from_ratio', 'cmp_uint', 'pcmp_uint', 'eq_uint', 'lt_uint', 'cmp_dec', 'lt_dec', 'eq_dec']
+    un_ops = ['from_uint256', 'to_u128', 'to_uint128', 'uint_is_zero', 'dec_is_zero']
+    for op in bin_ops:
+        for a in ns:
+            for b in rng.sample(ns, 14):
+                out.append(dict(kind='bn', op=op, a=str(a), b=str(b)))
+    for op in un_ops:
+        for a in ns:
+            out.append(dict(kind='bn', op=op, a=str(a)))
+    for a in ns:
+        if a < 2 ** 128:
+            out.append(dict(kind='bn', op='from_u128', a=str(a)))
+            out.append(dict(kind='bn', op='from_uint128', a=str(a)))
+        if a < 2 ** 64:
+            for op in ('from_u64', 'percent', 'permille'):
+                out.append(dict(kind='bn', op=op, a=str(a)))
+    for a in ns:
+        for b in rng.sample(ns, 8):
+            for c in rng.sample(ns, 4) + [1000, 3000, D]:
+                out.append(dict(kind='bn', op='multiply_ratio', a=str(a), b=str(b), c=str(c)))
+    for op in ('dec_one', 'dec_zero', 'uint_one', 'uint_zero'):
+        out.append(dict(kind='bn', op=op))
+    rng.shuffle(out)
+    return out[:max(budget, 20000)]
+
+
+PREDS = {'C01': viol_C01, 'C06': viol_C06, 'C12': viol_C12_reverse, 'C08': viol_C08}
 
 
 # ---------------------------------------------------------------- input families
@@ -170,7 +300,7 @@ def gen_offer_cases(rng, budget):
     return out[:budget]
 
 
-GENS = {'C01': gen_swap_cases, 'C06': gen_swap_cases, 'C12': gen_offer_cases, 'C03': gen_swap_cases, 'C20': gen_swap_cases}
+GENS = {'C01': gen_swap_cases, 'C06': gen_swap_cases, 'C12': gen_offer_cases}
 
 
 def search(pid, failure, tier, seed):
@@ -230,3 +360,6 @@ def replay_file(path):
         return 1
     print('not reproduced on the current tree')
     return 0
+
+
+GENS['C08'] = gen_bn_cases
